@@ -238,15 +238,22 @@ def check(ctx):
     try:
         dflt = A.trait_method(prog, "ReactCache", "Default", "default")
         ctx.touch(dflt)
-        ok, det = lib.channel_pairing(dflt, "ReactCache", "despawn_sender", "despawn_receiver")
+        # the two ends of the despawn channel by type (wherever the cache keeps them: own fields or a private grouping)
+        rc_adt = prog.adt_by_name("ReactCache")
+        sfs = [f["name"] for f in rc_adt["variants"][0]["fields"] if re.search(r"channel::Sender<bevy_ecs::entity::Entity>$", f["ty"])]
+        rfs = [f["name"] for f in rc_adt["variants"][0]["fields"] if re.search(r"channel::Receiver<bevy_ecs::entity::Entity>$", f["ty"])]
+        if len(sfs) != 1 or len(rfs) != 1:
+            raise mir.AnchorLost("despawn channel fields of ReactCache: %s / %s" % (sfs, rfs))
+        sfield, rfield = sfs[0], rfs[0]
+        ok, det = lib.channel_pairing(dflt, "ReactCache", sfield, rfield)
         ctx.check(ok, "C08.c", "ReactCache::default:despawn-channel-paired", "%s:%d" % (dflt.file, dflt.line),
                   "despawn_sender and despawn_receiver are the two ends of one channel", "the despawn sender and receiver are not the two ends of the same channel (%s)" % det)
         ds = A.method(prog, "ReactCache", "despawn_sender")
-        cl = [lib.tail(n, 2) for b, t, n, ch in lib.field_method_calls(ds, "ReactCache", "despawn_sender")]
+        cl = [lib.tail(n, 2) for b, t, n, ch in lib.field_method_calls(ds, "ReactCache", sfield)]
         ctx.check(cl in (["Sender::clone"], ["Clone::clone"]), "C08.c", "ReactCache::despawn_sender:clones-own-sender", "%s:%d" % (ds.file, ds.line), "", "despawn_sender() does not return a clone of the cache's own sender: %s" % cl)
         sdr = A.method(prog, "ReactCache", "schedule_despawn_reactions")
         # calls *on the receiver itself* (what is done with a received entity, e.g. logging it, is not a read of the channel)
-        rc = [lib.tail(n, 2) for b, t, n, ch in lib.field_method_calls(sdr, "ReactCache", "despawn_receiver") if not ch]
+        rc = [lib.tail(n, 2) for b, t, n, ch in lib.field_method_calls(sdr, "ReactCache", rfield) if not ch]
         ctx.check(rc == ["Receiver::try_recv"], "C08.c", "schedule_despawn_reactions:reads-own-receiver", "%s:%d" % (sdr.file, sdr.line), "", "schedule_despawn_reactions reads %s" % rc)
     except mir.AnchorLost as e:
         ctx.fail("C08.c", "anchor-lost:despawn channel", "", str(e))
